@@ -305,7 +305,11 @@ def classify(ex, gpc, st, W, attrs, h_loc, h_heap, cont, hsyms, tracked, typed_v
             cls_heap[a] = ("same", [], None)
             continue
         kept = []
-        for tr in tracked:
+        cand = list(tracked)
+        if a in ("$len", "$elems"):
+            # the ghost file-system trace (reserved id -1) is carried through a loop that performs no write effect
+            cand = cand + [z3.IntVal(-1)]
+        for tr in cand:
             good = True
             for r, f in zip(cont, finals):
                 sv = z3.Solver()
